@@ -199,5 +199,27 @@ ReprOfScript(s) ==
   LET r == RawOps(s) IN
   <<67, 83, 99, 114, 105, 112, 116, 40, 91>> \o JoinTexts([i \in 1..Len(r.ops) |-> TokRepr(r.ops[i])]) \o <<93, 41>>
 
+\* ------------------------------------------------------------ hash helpers and text renderings of core objects
+HexNoPad(bn) ==                                    \* "%x" of a natural number given as BigNat
+  LET m == BnNorm(bn) h == Hex(Rev(m)) IN
+  IF m = <<>> THEN <<48>> ELSE IF h[1] = 48 THEN Drop(h, 1) ELSE h
+Hex8(b4) == Hex(Rev(b4))                            \* "%08x" of a 4-byte little-endian field
+\* two's-complement little-endian field as signed decimal text
+SignedDec(b) ==
+  IF b[Len(b)] >= 128 THEN <<45>> \o DecText(BnSub(BnFromLE(Rep(0, Len(b)) \o <<1>>), BnFromLE(b))) ELSE DecText(BnFromLE(b))
+T(str) == str
+OutPointIsNull(o) == o.hash = Zeros(32) /\ o.n = Rep(255, 4)
+OutPointStr(o) == RevHex(o.hash) \o <<58>> \o DecText(BnFromLE(o.n))
+OutPointRepr(o) ==
+  IF OutPointIsNull(o) THEN <<67, 79, 117, 116, 80, 111, 105, 110, 116, 40, 41>>
+  ELSE <<67, 79, 117, 116, 80, 111, 105, 110, 116, 40, 108, 120, 40, 39>> \o RevHex(o.hash) \o <<39, 41, 44, 32>> \o DecText(BnFromLE(o.n)) \o <<41>>
+TxInRepr(i) == <<67, 84, 120, 73, 110, 40>> \o OutPointRepr(i.prevout) \o Comma \o ReprOfScript(i.script) \o <<44, 32, 48, 120>> \o HexNoPad(BnFromLE(i.seq)) \o <<41>>
+TxOutRepr(o) ==
+  IF o.value[8] < 128 THEN <<67, 84, 120, 79, 117, 116, 40>> \o MoneyText(BnFromLE(o.value)) \o <<42, 67, 79, 73, 78, 44, 32>> \o ReprOfScript(o.script) \o <<41>>
+  ELSE <<67, 84, 120, 79, 117, 116, 40>> \o SignedDec(o.value) \o Comma \o ReprOfScript(o.script) \o <<41>>
+HeaderRepr(h) ==
+  <<67, 66, 108, 111, 99, 107, 72, 101, 97, 100, 101, 114, 40>> \o SignedDec(h.ver) \o <<44, 32, 108, 120, 40>> \o RevHex(h.prev) \o <<41, 44, 32, 108, 120, 40>> \o RevHex(h.merkle) \o <<41, 44, 32>> \o DecText(BnFromLE(h.time))
+    \o <<44, 32, 48, 120>> \o Hex8(h.bits) \o <<44, 32, 48, 120>> \o Hex8(h.nonce) \o <<41>>
+
 IsFinalIn(i) == i.seq = Rep(255, 4)
 =============================================================================
